@@ -19,7 +19,7 @@ ASSUME = {
             "WordSplitter (daachorse) contract assumed; Italian/German/Dutch values assumed to come from Default::default"],
     "C02": ["whole-stream losslessness of tokenize is assumed inside unit scan (proved per token in unit tok); Vec::drain/insert and [T]::join have assumed contracts"],
     "C03": ["partial correctness: termination of iterator-driven loops and of the apply<->exec_group recursion is not proved"],
-    "C04": ["multi-word ordinals: composition proved for en (all ranks below 10^12), es (1..1999, four forms) and fr (1..999999, masculine singular, separate words); for pt, it, de, nl not proved (bounded ordinal search in the thorough tier)"],
+    "C04": ["multi-word ordinals: composition proved for en (all ranks below 10^12), es and pt (1..1999, four forms) and fr (1..999999, masculine singular, separate words); for it, de, nl not proved (bounded ordinal search in the thorough tier)"],
     "C05": ["f64 value = parse_f64(text), uninterpreted",
             "decimal round trip: proved for en, es, fr, pt (pt below 10^6) as two machine-checked halves in two units (scan::drive_parser generic in the language; lemma_<c>_decimal per language) whose composition is one substitution on paper; for it, de, nl not proved (bounded decimal search in the thorough tier)"],
     "C06": ["f64 value = parse_f64(text), uninterpreted"],
